@@ -401,7 +401,7 @@ func rule066(r *core.Run, ctx *oblig.Ctx) {
 			return
 		}
 		nStore++
-		r.Check(pn != nil && ia.Index == ssa.Value(pn), "R06.6", key(k, "stored at partNumber"), pos(r, st), "slot index is the partNumber parameter", "the part is stored at an index other than its part number")
+		r.Check(pn != nil && core.Forward(ia.Index) == ssa.Value(pn), "R06.6", key(k, "stored at partNumber"), pos(r, st), "slot index is the partNumber parameter", "the part is stored at an index other than its part number")
 		// stored value: &part with Body = body, ETag = md5(body)
 		sv := r.P.SliceOf(st.Val, core.SliceOpts{Depth: 1})
 		r.Check(body != nil && sv.HasValue(body), "R06.6", key(k, "Body is the read body"), pos(r, st), "part.Body is the body read from input", "the stored part's Body is not the body read from the request")
